@@ -51,6 +51,11 @@ COMPS = [BASE['plasma']['composition'],
           dict(el='C', q=6, n=1e18, t=800., v=(0, 2e4, 0), gn=(0, 0.1, 0), gt=(0, 0, 0)),
           dict(el='C', q=5, n=1e17, t=800., v=(0, 2e4, 0), gn=(0, 0.1, 0), gt=(0, 0, 0)),
           dict(el='He', q=2, n=5e17, t=850., v=(0, 0, 0), gn=(0, 0, 0), gt=(0, 0, 0))]]
+COMPS.append([dict(el='D', q=1, n=4e19, t=900., v=(1e4, 0, 0), gn=(0.1, 0.05, 0), gt=(0, 0, 0.1)),
+              dict(el='D', q=0, n=1e17, t=10., v=(0, 0, 0), gn=(0, 0, 0), gt=(0, 0, 0)),
+              dict(el='C', q=6, n=1e18, t=800., v=(0, 2e4, 0), gn=(0, 0.1, 0, 'hole'), gt=(0, 0, 0)),
+              dict(el='C', q=5, n=1e17, t=800., v=(0, 2e4, 0), gn=(0, 0.1, 0, 'hole'), gt=(0, 0, 0)),
+              dict(el='Ne', q=10, n=3e18, t=850., v=(0, 0, 0), gn=(0, 0, 0.1, 'hole'), gt=(0, 0, 0))])
 EXTRA_SPECIES = [dict(el='Ne', q=10, n=2e17, t=700., v=(0, 0, 0), gn=(0, 0.1, 0), gt=(0, 0, 0)),
                  dict(el='C', q=5, n=4e17, t=650., v=(0, 1e4, 0), gn=(0, 0, 0), gt=(0, 0, 0))]
 PMODELS = [BASE['plasma']['models'], [('exc', ('C', 5, (8, 7)))], [('rec', ('C', 5, (8, 7))), ('brems',)],
@@ -194,6 +199,28 @@ def mutators(S):
         del lst[0]
     reg('beam.models(then-mutate-caller-list)', lambda r, c: _other(r, BMODELS, c[B]['models']), _alias_bmodels_act, setc(B, 'models'))
 
+    # rejected changes: the call must raise and leave the scene exactly as it was
+    def _rej(fn):
+        def act(L, v):
+            try:
+                fn(L)
+            except Exception:  # noqa  (the rejection itself is expected; what matters is the state afterwards)
+                return
+            raise AssertionError('invalid assignment was accepted')
+        return act
+    reg('rejected:plasma.composition=[species,junk]', lambda r, c: 0,
+        _rej(lambda L: setattr(L.plasma, 'composition', S.species_list(COMPS[1])[:2] + ['junk'])), lambda cfg, v: None)
+    reg('rejected:plasma.composition.add(None)', lambda r, c: 0, _rej(lambda L: L.plasma.composition.add(None)), lambda cfg, v: None)
+    reg('rejected:plasma.models=[model,junk]', lambda r, c: 0,
+        _rej(lambda L: setattr(L.plasma, 'models', [S.plasma_model(('brems',)), 'junk'])), lambda cfg, v: None)
+    reg('rejected:beam.energy=-1', lambda r, c: 0, _rej(lambda L: setattr(L.beam, 'energy', -1.0)), lambda cfg, v: None)
+    reg('rejected:beam.length=0', lambda r, c: 0, _rej(lambda L: setattr(L.beam, 'length', 0.0)), lambda cfg, v: None)
+    reg('rejected:beam.sigma=-1', lambda r, c: 0, _rej(lambda L: setattr(L.beam, 'sigma', -1.0)), lambda cfg, v: None)
+    reg('rejected:beam.models=[model,junk]', lambda r, c: 0,
+        _rej(lambda L: setattr(L.beam, 'models', [S.beam_model(('bcx', ('C', 5, (8, 7)))), 'junk'])), lambda cfg, v: None)
+    reg('rejected:beam.attenuator.step=0', lambda r, c: 0, _rej(lambda L: setattr(L.beam.attenuator, 'step', 0.0)), lambda cfg, v: None)
+    reg('rejected:laser.models=[junk]', lambda r, c: 0, _rej(lambda L: setattr(L.laser, 'models', ['junk'])), lambda cfg, v: None)
+
     reg('beam.integrator', lambda r, c: _other(r, [0.05, 0.04, 0.08], c[B]['integrator_step']),
         lambda L, v: setattr(L.beam, 'integrator', NumericalIntegrator(step=v)), setc(B, 'integrator_step'))
     reg('beam.transform', lambda r, c: _other(r, BEAM_TR, c[B]['transform']),
@@ -276,7 +303,7 @@ def check_history(S, M, cfg0, hist):
     if st == 'raised':
         ev = events[-1]
         return 'mutator %s raised %s: %s' % ev
-    fst, fo = S.observe(S.build(cfg))
+    fst, fo = S.observe(S.build(cfg), order=[3, 2, 1, 0])      # evaluation order must not matter either
     return differs((st, o), (fst, fo))
 
 
